@@ -11,6 +11,7 @@ use super::{
 use crate::{
     ast,
     builder::{Ready, With, WithIterator, WithoutContext},
+    data_type::DataTyped as _,
     dialect::{Dialect, GenericDialect},
     dialect_translation::{postgresql::PostgreSqlTranslator, QueryToRelationTranslator},
     expr::{Expr, Identifier, Reduce, Split},
@@ -585,6 +586,26 @@ impl<'a, T: QueryToRelationTranslator + Copy + Clone> VisitedQueryRelations<'a, 
         } else {
             None
         };
+        // Prepare the WHERE
+        let filter: Option<Expr> = selection
+            .as_ref()
+            // todo. Use pass the expression through the translator
+            .map(|e| self.translator.try_expr(e, columns))
+            .map_or(Ok(None), |r| r.map(Some))?;
+        // Every column has to be a column of the FROM relation: the builders below do not return errors
+        let from_data_type = from.data_type();
+        for expr in named_exprs
+            .iter()
+            .map(|(_, expr)| expr)
+            .chain(group_by.iter())
+            .chain(filter.iter())
+        {
+            for column in expr.columns() {
+                if from_data_type.hierarchy().get(column).is_none() {
+                    return Err(Error::other(format!("Unknown column: {column}")));
+                }
+            }
+        }
         // Build the Map or Reduce based on the type of split
         // If group_by is non-empty, start with them so that aggregations can take them into account
         let split = if group_by.is_empty() {
@@ -600,13 +621,6 @@ impl<'a, T: QueryToRelationTranslator + Copy + Clone> VisitedQueryRelations<'a, 
                 .into_iter()
                 .fold(group_by, |s, named_expr| s.and(named_expr.into()))
         };
-        // Prepare the WHERE
-        let filter: Option<Expr> = selection
-            .as_ref()
-            // todo. Use pass the expression through the translator
-            .map(|e| self.translator.try_expr(e, columns))
-            .map_or(Ok(None), |r| r.map(Some))?;
-
         // Build a Relation
         let mut relation: Relation = match split {
             Split::Map(map) => {
